@@ -112,7 +112,7 @@ impl Gen {
                 let rng = &mut self.rng;
                 let amount = boundary_amount(rng, o.min_stake(), headroom.min(self.profile.max_amount));
                 let mint_to: Option<String> = match rng.below(10) {
-                    0 | 1 => Some(rng.pick(&sc.users).clone()),
+                    0 | 1 => Some(if rng.chance(1, 5) { sc.contract_user.clone() } else { rng.pick(&sc.users).clone() }),
                     // (now and then in the all-upper-case spelling bech32 allows)
                     2 | 3 => Some(if rng.chance(1, 8) { rng.pick(&sc.native_users).to_uppercase() } else { rng.pick(&sc.native_users).clone() }),
                     // the staker itself as native recipient: one receiver then has transfers in both denoms
@@ -229,6 +229,16 @@ impl Gen {
                     2 => {
                         // early
                         ops.push(sc.deliver(&staker, &ch, b.id, b.expected.max(1)));
+                    }
+                    4 if rng.chance(1, 2) => {
+                        // a protocol-chain account whose address string is the staker's (it exists when both chains
+                        // share a prefix) calls directly, at the right time, with the right amount
+                        if now < b.next_time_s {
+                            ops.push(Op::Advance { secs: b.next_time_s - now });
+                        }
+                        let amt = b.expected.max(1);
+                        ops.push(Op::BankMint { addr: staker.clone(), denom: sc.s.clone(), amount: amt });
+                        ops.push(Op::exec(&staker, &sc.q, json!({"receive_unstaked_tokens": {"batch_id": b.id}}), coin(&sc.s, amt)));
                     }
                     3 if rng.chance(1, 2) => {
                         // the right staker on the right channel at the right time, but paying in another token
